@@ -1,7 +1,7 @@
 (* C04 — property theorems for the template language (M1).  The #expr theorems are in ExprProperties.v and
    ExprGenProperties.v.  Each theorem is closed by `exact <lemma>` and followed by Print Assumptions. *)
 From Coq Require Import List NArith Bool.
-From MW Require Import Common.Str C03.Model C04.Model C04.Proofs.
+From MW Require Import Common.Str C03.Model C04.Model C04.Proofs C04.ProofsEq.
 Import ListNotations.
 
 (* C04_eval_correct (DESIGN.md): for every universe (cyclic or not) on which the reference semantics is defined
@@ -96,3 +96,77 @@ Example C04_example_switch_program :
   impl_expand ex2_u [default_key] 100 ex2_page = Ok ex2_out.
 Proof. exact example_switch_program. Qed.
 Print Assumptions C04_example_switch_program.
+
+(* ------------------------------------------------------------------ equals signs inside text (the real parse)
+   templ/scanner.py makes every '=' a token; Parser._parse_args turns each top-level '=' of an argument of a template
+   call, #if, #ifeq (magic node) and #switch into marks.eqmark.  Model.v `compile_r` is that parse: `compile` with the text
+   leaves at the top level of an argument cut at every '=' ("a = b" -> "a ", eqmark, " b"); tie (a) of the check compares
+   it with templ.parser.parse on every generated program. *)
+
+(* (1) without '=' in text leaves compile_r is compile: C04_eval_correct is a statement about the real parse for the
+   whole grammar of the property. *)
+Theorem C04_compile_r_is_compile_without_eq :
+  forall p, noeqb p = true -> compile_r p = compile p.
+Proof. exact compile_r_noeq. Qed.
+Print Assumptions C04_compile_r_is_compile_without_eq.
+
+Theorem C04_templates_without_eq_parse_alike :
+  forall u, noequ u -> forall name, tpl_of_r u name = tpl_of u name.
+Proof. exact tpl_of_r_noeq. Qed.
+Print Assumptions C04_templates_without_eq_parse_alike.
+
+(* (2) C04_eval_correct_eq_text_partial.  FULL STATEMENT (not yet proved):
+     forall u dn, wfu' u -> dn_ok dn -> forall n page s, wfl' page = true -> evals n u [] page = Some s ->
+     exists L0, forall limit, L0 <= limit -> impl_expand_r u dn limit page = Ok s
+   where wfl' is wfl with '=' allowed in every text leaf except at the top level of a positional argument, of a #switch key
+   and of a bare #switch default (there '=' is syntax, not text), and the templates of u are parsed by compile_r too.
+   PROVED HERE: the same for pages of the grammar `wfq`
+       Text (any '=')  |  {{{p|default}}} (default: wfq bodies, '=' allowed)  |  #if  |  #ifeq  (condition, operands and
+       branches: wfq bodies, '=' allowed)
+       |  {{name| v | k = w }}: positional arguments = wfq bodies without a top-level '=' (with one it IS a named argument),
+          named arguments with blanks allowed around the name (bound under the trimmed name, pairwise distinct) and wfq
+          bodies as values, whose further '=' are text ("k= b = c" binds k to "b = c")
+       |  #switch (and calls) of the old grammar without '=' (wf && noeqb),
+   nested to any depth, over a universe of '='-free templates (for which tpl_of_r = tpl_of, theorem above): the model of
+   expandTemplates on the real parse returns the reference value - in particular a branch " a = b " of #if/#ifeq comes out as
+   "a = b" (trimmed at its two ends only), which is what seeded regression C04-4 breaks.
+   The model's evaluate.equal_split is the FIXED one of fixes/C04-equal-split-single-node-argument.diff (an argument that is
+   one single #if/#ifeq node is never split; the unfixed code binds 1 = "x" for {{t|{{#if:1|=|x}}}}).
+   MISSING for the full statement: '=' in #switch values/scrutinee/#default and inside template bodies (needs the lemmas of
+   Proofs.v over tpl_of_r instead of tpl_of). *)
+Theorem C04_eval_correct_eq_text_partial :
+  forall (u : universe) (dn : list str),
+  wfu u -> dn_ok dn ->
+  forall (n : nat) (page : list ast) (s : str),
+  wql page = true ->
+  evals n u [] page = Some s ->
+  exists L0, forall limit, (L0 <= limit)%nat -> impl_expand_rp u dn limit page = Ok s.
+Proof. exact eval_correct_r. Qed.
+Print Assumptions C04_eval_correct_eq_text_partial.
+
+Theorem C04_eval_correct_eq_text_node_partial :
+  forall (u : universe) (dn : list str), wfu u -> dn_ok dn ->
+  forall n E e p s, env_rel u dn E e -> env_ok E -> wfq p = true -> eval n u E p = Some s ->
+  flat_to u dn (compile_r p) e s.
+Proof. exact main_r. Qed.
+Print Assumptions C04_eval_correct_eq_text_node_partial.
+
+(* non-vacuity: the page  x{{#if: 1 | a = b | no }}{{#ifeq: p=q | p =q | same | l != r }}{{{zz| d = e }}}  is in wfq, contains
+   '=' (so compile_r differs from compile on it), and both sides compute "xa = bl != r d = e " *)
+Example C04_example_eq_text_program :
+  wql exq_page = true /\ noeql exq_page = false /\
+  evals 10 [] [] exq_page = Some exq_out /\
+  impl_expand_rp [] [default_key] 100 exq_page = Ok exq_out /\
+  compile_body_r exq_page <> compile_body exq_page.
+Proof. exact example_eq_program. Qed.
+Print Assumptions C04_example_eq_text_program.
+
+(* non-vacuity of the Call case: t1 = "[{{{1}}}/{{{k}}}]", page "{{t1|{{#if:1| a = b }}| k = c = d }}" -> "[a = b/c = d]",
+   also with the template parsed by compile_r (impl_expand_r) *)
+Example C04_example_eq_call_program :
+  wql exq2_page = true /\ noeql exq2_page = false /\ wfl (snd (hd ([], []) exq2_u)) = true /\
+  evals 10 exq2_u [] exq2_page = Some exq2_out /\
+  impl_expand_rp exq2_u [default_key] 100 exq2_page = Ok exq2_out /\
+  impl_expand_r exq2_u [default_key] 100 exq2_page = Ok exq2_out.
+Proof. exact example_eq_call_program. Qed.
+Print Assumptions C04_example_eq_call_program.
